@@ -1,6 +1,10 @@
 //! C28 — the control-flow graph partitions the body and locates its blocks.
 use qvh::*;
-use quil_rs::instruction::{Instruction, Target};
+use quil_rs::instruction::{
+    Gate, Instruction, Jump, JumpUnless, JumpWhen, Label, MemoryReference, Qubit, QubitPlaceholder, Target,
+    TargetPlaceholder,
+};
+use std::sync::OnceLock;
 use quil_rs::program::analysis::{BasicBlock, BasicBlockTerminator, ControlFlowGraph, ControlFlowGraphOwned};
 use quil_rs::quil::Quil;
 use quil_rs::Program;
@@ -10,17 +14,57 @@ fn main() {
     main_with(run)
 }
 
+/// Placeholder targets created by this harness. A placeholder's identity is "which creation it came from";
+/// it is recognised here by the address of its base-label buffer, NOT by the implementation's `==`/`Hash`/`Debug`
+/// (two placeholders with the same base label print the same Debug text).
+static PLACEHOLDERS: OnceLock<Vec<TargetPlaceholder>> = OnceLock::new();
+
+fn placeholders() -> &'static [TargetPlaceholder] {
+    PLACEHOLDERS.get_or_init(|| {
+        ["loop", "loop", "x", "loop", "a"].iter().map(|b| TargetPlaceholder::new(b.to_string())).collect()
+    })
+}
+
+/// Independent key of a jump/label target: `f:<name>` or `p<creation index>:<base label>`.
 fn target(t: &Target) -> String {
-    t.to_quil_or_debug()
+    match t {
+        Target::Fixed(name) => format!("f:{name}"),
+        Target::Placeholder(p) => {
+            let addr = p.as_inner().as_ptr();
+            match placeholders().iter().position(|q| q.as_inner().as_ptr() == addr) {
+                Some(k) => format!("p{k}:{}", p.as_inner()),
+                None => format!("p?:{}", p.as_inner()),
+            }
+        }
+    }
+}
+
+/// Independent key of a jump condition, from the fields.
+fn cond(m: &MemoryReference) -> String {
+    format!("{}[{}]", m.name, m.index)
+}
+
+/// Ordinary instruction payload: `<body position>:<text>` when the instruction is (by ADDRESS) an element of
+/// `body`, else `?:<text>`. `BasicBlock::instructions()` hands out references into the program's body, so the
+/// position is observable without the implementation's `PartialEq`.
+fn payload(i: &Instruction, body: Option<&[&Instruction]>) -> String {
+    let text = i.to_quil_or_debug();
+    match body {
+        None => text,
+        Some(b) => match b.iter().position(|x| std::ptr::eq(*x, i)) {
+            Some(k) => format!("{k}:{text}"),
+            None => format!("?:{text}"),
+        },
+    }
 }
 
 /// Projection of a body instruction to the model's alphabet (the trusted part of the tie).
-fn project(i: &Instruction) -> Sexp {
+fn project(i: &Instruction, body: Option<&[&Instruction]>) -> Sexp {
     match i {
         Instruction::Label(l) => tagged("l", vec![st(target(&l.target))]),
         Instruction::Jump(j) => tagged("j", vec![st(target(&j.target))]),
-        Instruction::JumpWhen(j) => tagged("jw", vec![st(target(&j.target)), st(j.condition.to_quil_or_debug())]),
-        Instruction::JumpUnless(j) => tagged("ju", vec![st(target(&j.target)), st(j.condition.to_quil_or_debug())]),
+        Instruction::JumpWhen(j) => tagged("jw", vec![st(target(&j.target)), st(cond(&j.condition))]),
+        Instruction::JumpUnless(j) => tagged("ju", vec![st(target(&j.target)), st(cond(&j.condition))]),
         Instruction::Halt() => tagged("h", vec![]),
         Instruction::CalibrationDefinition(_)
         | Instruction::CircuitDefinition(_)
@@ -30,11 +74,11 @@ fn project(i: &Instruction) -> Sexp {
         | Instruction::Include(_)
         | Instruction::MeasureCalibrationDefinition(_)
         | Instruction::WaveformDefinition(_) => tagged("s", vec![st(i.to_quil_or_debug())]),
-        other => tagged("o", vec![st(other.to_quil_or_debug())]),
+        other => tagged("o", vec![st(payload(other, body))]),
     }
 }
 
-fn blocks_sexp(blocks: Vec<BasicBlock>) -> Vec<Sexp> {
+fn blocks_sexp(blocks: Vec<BasicBlock>, body: Option<&[&Instruction]>) -> Vec<Sexp> {
     blocks
         .into_iter()
         .map(|b| {
@@ -42,13 +86,13 @@ fn blocks_sexp(blocks: Vec<BasicBlock>) -> Vec<Sexp> {
                 Some(t) => tagged("some", vec![st(target(t))]),
                 None => tagged("none", vec![]),
             };
-            let instrs = tagged("instrs", b.instructions().iter().map(|i| st(i.to_quil_or_debug())).collect());
+            let instrs = tagged("instrs", b.instructions().iter().map(|i| st(payload(i, body))).collect());
             let term = match b.terminator() {
                 BasicBlockTerminator::Continue => tagged("c", vec![]),
                 BasicBlockTerminator::Jump { target: t } => tagged("j", vec![st(target(t))]),
                 BasicBlockTerminator::ConditionalJump { condition, target: t, jump_if_condition_zero } => tagged(
                     "cond",
-                    vec![st(target(t)), st(condition.to_quil_or_debug()), boolean(*jump_if_condition_zero)],
+                    vec![st(target(t)), st(cond(condition)), boolean(*jump_if_condition_zero)],
                 ),
                 BasicBlockTerminator::Halt => tagged("h", vec![]),
             };
@@ -57,29 +101,34 @@ fn blocks_sexp(blocks: Vec<BasicBlock>) -> Vec<Sexp> {
         .collect()
 }
 
-fn observe(p: &Program) -> Sexp {
+/// `positional`: identify block instructions by their address within `p`'s body (primary observation);
+/// otherwise by text only (for routes that copy the instructions).
+fn observe(p: &Program, positional: bool) -> Sexp {
+    let body: Vec<&Instruction> = p.body_instructions().collect();
     let cfg = ControlFlowGraph::from(p);
     let dynamic = cfg.has_dynamic_control_flow();
-    let blocks = blocks_sexp(cfg.into_blocks());
+    let blocks = blocks_sexp(cfg.into_blocks(), if positional { Some(&body) } else { None });
     tagged("cfg", vec![tagged("dyn", vec![boolean(dynamic)]), tagged("blocks", blocks)])
 }
 
 /// Sibling entry points and derived views: each must agree with the primary observation.
 /// `(sib <owned> <single> <index> <terminst> <again>)`
-fn siblings(p: &Program, primary: &Sexp) -> Sexp {
+fn siblings(p: &Program, primary_positional: &Sexp) -> Sexp {
+    let primary = &observe(p, false);
+    let body: Vec<&Instruction> = p.body_instructions().collect();
     // owned round trip
     let owned = ControlFlowGraphOwned::from(ControlFlowGraph::from(p));
     let back = ControlFlowGraph::from(&owned);
     let dynamic = back.has_dynamic_control_flow();
-    let via_owned = tagged("cfg", vec![tagged("dyn", vec![boolean(dynamic)]), tagged("blocks", blocks_sexp(back.into_blocks()))]);
+    let via_owned = tagged("cfg", vec![tagged("dyn", vec![boolean(dynamic)]), tagged("blocks", blocks_sexp(back.into_blocks(), None))]);
     let owned_same = &via_owned == primary;
     // a second computation on the same program
-    let again_same = &observe(p) == primary;
+    let again_same = &observe(p, true) == primary_positional;
     // BasicBlock::try_from
     let blocks = ControlFlowGraph::from(p).into_blocks();
     let single = match BasicBlock::try_from(p) {
         Ok(b) => {
-            if blocks.len() == 1 && blocks_sexp(vec![b]) == blocks_sexp(blocks.clone()) {
+            if blocks.len() == 1 && blocks_sexp(vec![b], Some(&body)) == blocks_sexp(blocks.clone(), Some(&body)) {
                 "ok-same"
             } else {
                 "ok-differs"
@@ -135,13 +184,14 @@ fn case(ctx: &mut Ctx, instructions: &[Instruction]) {
         p.add_instruction(i.clone());
     }
     // the model's input is the projection of the REAL body, whatever add_instruction routed there
-    let body: Vec<Sexp> = p.body_instructions().map(project).collect();
+    let refs: Vec<&Instruction> = p.body_instructions().collect();
+    let body: Vec<Sexp> = refs.iter().map(|i| project(i, Some(&refs))).collect();
     ctx.case(tagged("body", body), || {
-        let primary = observe(&p);
+        let primary = observe(&p, true);
         let sib = siblings(&p, &primary);
         // the same content built by other routes must give the same graph
         let q = Program::from_instructions(p.to_instructions());
-        let route = if observe(&q) == primary { "route-same" } else { "route-differs" };
+        let route = if observe(&q, false) == observe(&p, false) { "route-same" } else { "route-differs" };
         match primary {
             Sexp::List(mut v) => {
                 v.push(sib);
@@ -201,6 +251,64 @@ fn run(ctx: &mut Ctx) {
                 idx[k] = 0;
             }
         }
+    }
+    // API-only bodies: placeholder targets (two of them share the base label "loop", and a fixed label is named
+    // like a placeholder's Debug text), placeholder qubits
+    let ph = placeholders();
+    let t = |k: usize| Target::Placeholder(ph[k].clone());
+    let ro = |i: u64| MemoryReference::new("ro".to_string(), i);
+    let q1 = Qubit::Placeholder(QubitPlaceholder::default());
+    let q2 = Qubit::Placeholder(QubitPlaceholder::default());
+    let gate = |q: &Qubit| Instruction::Gate(Gate::new("X", vec![], vec![q.clone()], vec![]).unwrap());
+    let fixed_like = Target::Fixed("Placeholder(TargetPlaceholder(\"loop\"))".to_string());
+    let api: Vec<Instruction> = vec![
+        Instruction::Label(Label { target: t(0) }),
+        Instruction::Label(Label { target: t(1) }),
+        Instruction::Jump(Jump { target: t(0) }),
+        Instruction::Jump(Jump { target: t(1) }),
+        Instruction::JumpWhen(JumpWhen { target: t(1), condition: ro(0) }),
+        Instruction::JumpUnless(JumpUnless { target: t(0), condition: ro(1) }),
+        gate(&q1),
+        gate(&q2),
+        Instruction::Label(Label { target: t(2) }),
+        Instruction::Label(Label { target: t(3) }),
+        Instruction::Label(Label { target: fixed_like.clone() }),
+        Instruction::Jump(Jump { target: fixed_like }),
+        Instruction::Jump(Jump { target: t(3) }),
+        Instruction::JumpUnless(JumpUnless { target: t(4), condition: ro(0) }),
+        Instruction::Label(Label { target: Target::Fixed("a".to_string()) }),
+        Instruction::Jump(Jump { target: Target::Fixed("a".to_string()) }),
+        gate(&Qubit::Fixed(0)),
+        gate(&Qubit::Fixed(0)),
+        Instruction::Halt(),
+    ];
+    // exhaustive over the first 8 (two same-named placeholders in every label/jump arrangement)
+    let api_len = if ctx.quick() { 4 } else { 5 };
+    for len in 1..=api_len {
+        let mut idx = vec![0usize; len];
+        'outer2: loop {
+            let is: Vec<Instruction> = idx.iter().map(|&i| api[i].clone()).collect();
+            case(ctx, &is);
+            let mut k = len;
+            loop {
+                if k == 0 {
+                    break 'outer2;
+                }
+                k -= 1;
+                idx[k] += 1;
+                if idx[k] < 8 {
+                    break;
+                }
+                idx[k] = 0;
+            }
+        }
+    }
+    let n_api = if ctx.quick() { 8_000 } else { 150_000 };
+    let mut rng = ctx.rng(2828);
+    for _ in 0..n_api {
+        let len = 2 + rng.below(12) as usize;
+        let is: Vec<Instruction> = (0..len).map(|_| rng.pick(&api).clone()).collect();
+        case(ctx, &is);
     }
     // random longer bodies over every "ordinary" instruction kind, definitions and many labels
     let wide = parse_pool(&[
